@@ -179,8 +179,25 @@ def g4(F, rep):
     sigc = F.const_int(SD + "ZIP_LOCAL_FILE_HEADER_SIGNATURE")
     rep.add("G4", "zip:signature-constant", sigc == SPEC["zip"]["signature"], pw, "ZIP_LOCAL_FILE_HEADER_SIGNATURE = 0x%08x" % sigc)
     tests = [flow.describe(pz, pz.term(sb)["d"], names=True) for sb in pz.normal_blocks() if pz.term(sb)["k"] == "switch"]
-    rep.add("G4", "zip:signature-checked", any(re.match(r"^Ne\(var\(signature\), K%d\)$" % SPEC["zip"]["signature"], d) for d in tests), pw, "tests: %s" % [d for d in tests if "signature" in d])
-    rep.add("G4", "zip:method-8", any(re.match(r"^Eq\(var\(zip_local_file_header\)\.compression_method, K8\)$", d) for d in tests), pw, "tests: %s" % [d for d in tests if "compression_method" in d])
+    dcalls = [bb for bb, t in pz.calls() if strip_generics(callee_def(t)).endswith("decompress_deflate_stream")]
+
+    def _only_when_equal(pattern, k):
+        """The decoder is reached only along the `== k` outcome of a test of `pattern` against k (written as == or !=)."""
+        for sb in sorted(pz.normal_blocks()):
+            st = pz.term(sb)
+            if st["k"] != "switch" or len(st["targets"]) != 1:
+                continue
+            m = re.match(r"^(Eq|Ne)\((.*), K(\d+)\)$", flow.describe(pz, st["d"], names=True))
+            if not m or int(m.group(3)) != k or not re.match(pattern, m.group(2)):
+                continue
+            eq_edge = st["otherwise"] if m.group(1) == "Eq" else st["targets"][0][1]
+            if dcalls and all(pz.edge_dominates(sb, eq_edge, c) for c in dcalls):
+                return True
+        return False
+    rep.add("G4", "zip:signature-checked", _only_when_equal(r"^var\(signature\)$|^var\(zip_local_file_header\)\.local_file_header_signature$", SPEC["zip"]["signature"]), pw,
+            "the decoder is only reached when the signature equals 0x%08x; tests: %s" % (SPEC["zip"]["signature"], [d for d in tests if "signature" in d]))
+    rep.add("G4", "zip:method-8", _only_when_equal(r"^var\(zip_local_file_header\)\.compression_method$", 8), pw,
+            "the decoder is only reached when compression_method == 8; tests: %s" % [d for d in tests if "compression_method" in d])
     fn = [flow.describe(pz, t["args"][0], names=True) + "," + flow.describe(pz, t["args"][1], names=True) for bb, t in pz.calls() if strip_generics(callee_def(t)).endswith("vec::from_elem")]
     rep.add("G4", "zip:file-name-skipped", any("file_name_length" in d for d in fn) and any(t["callee"]["def"].endswith("Read::read_exact") for bb, t in pz.calls()), pw, "name buffer sized by %s and filled with read_exact" % fn)
     sk = [flow.describe(pz, t["args"][1]) for bb, t in pz.calls() if t["callee"]["def"].endswith("Seek::seek")]
